@@ -108,6 +108,11 @@ def kw_sync(rng, case):
         kw["max_tau"] = as_user_number(rng, rng.choice(gen.maxtau_choices(T, case["step"])))
     else:
         kw["max_tau"] = rng.choice([None, None, 0, T * 10 ** rng.uniform(-5, 0.5)])
+        if T >= 3 and rng.random() < 0.3:
+            # users pass whole numbers as python ints (max_tau=2) also when the spike times are arbitrary floats
+            kw["max_tau"] = int(max(1, round(T * 10 ** rng.uniform(-2.5, -0.35))))
+            if rng.random() < 0.3:
+                kw["MRTS"] = int(max(1, round(T * 10 ** rng.uniform(-2, 0))))
     return kw
 
 
